@@ -70,6 +70,9 @@ def b_worker(jobs):
                     continue
                 doc = GG.doc_of(*sp)
             term, ab, ob = case_term(doc)
+            if job[0] == "doc" and ab.imprecise:
+                out.append((("doc", job[1]), None, "imprecise: " + ab.imprecise[0][:100]))     # the abstraction declines: no claim
+                continue
             nerr = len(ob["errs"])
             nrem = sum(len(e[3]) for e in ob["errs"])
             out.append((job if job[0] != "doc" else ("doc", job[1]), term, (len(ab.nodes), nerr, nrem, bool(ab.imprecise))))
@@ -105,7 +108,7 @@ def stage_b(run, tier, rng):
     else:
         jobs += [("fam", 3, "full", i) for i in range(full3)]
     size4 = GG.family_size(4, GG.OBJ_KINDS_SMALL)
-    n4 = 4000 if tier == "quick" else 500000
+    n4 = 4000 if tier == "quick" else 300000
     jobs += [("fam", 4, "small", rng.randrange(size4)) for _ in range(n4)]
     nrand = 2500 if tier == "quick" else 30000
     jobs += [("rand", rng.randrange(1 << 40)) for _ in range(nrand)]
@@ -125,10 +128,13 @@ def stage_b(run, tier, rng):
         for r in ex.map(b_worker, list(chunks(jobs, 1500))):
             results.extend(r)
     print("stage B: %d cases abstracted and observed in %.1fs" % (len(results), time.time() - t0)); t0 = time.time()
-    terms, meta, raised = [], [], 0
+    terms, meta, raised, declined = [], [], 0, 0
     for job, term, info in results:
         if term is None:
-            raised += 1
+            if isinstance(info, str) and info.startswith("imprecise"):
+                declined += 1
+            else:
+                raised += 1
             continue
         terms.append(term); meta.append((job, info))
     bad = []
@@ -140,7 +146,7 @@ def stage_b(run, tier, rng):
         nontriv = info[1] > 0
         run.note_case({"job": list(job)[:4], "nodes": info[0], "errors": info[1], "removed": info[2]}, nontrivial=nontriv,
                       kind=f"B:{kind}:{'errors' if info[1] else 'clean'}{':cascade' if info[2] > info[1] else ''}")
-    run.corr = {"cases": len(terms), "mismatches": len(bad), "implementation_raised": raised,
+    run.corr = {"cases": len(terms), "mismatches": len(bad), "implementation_raised": raised, "documents_declined_by_abstraction": declined,
                 "what": "Graph.build_schemas on the abstracted graph == real build_schemas: classes_by_reference keys, classes_by_name keys, ordered errors "
                         "(phase, unit, category, removal list as a set), the dependencies relation; and wf_graph of the abstraction"}
     run.exhaustive = True
